@@ -160,6 +160,21 @@ func (w *World) contractName(fn *ssa.Function) string {
 	return fn.Pkg.Pkg.Path() + "::" + fnKey(fn)
 }
 
+// contractForView: the contract a function is used under while a caller is
+// verified under the view `view` ("" = primary).  A view is a second,
+// independently verified contract of the same function, written as
+// `func F @view`; it is used at call sites only by functions that are
+// themselves being verified under the same view, and falls back to the
+// primary contract of a callee that has no such view.
+func (w *World) contractForView(fn *ssa.Function, view string) *Contract {
+	if view != "" {
+		if c, ok := w.contracts[w.contractName(fn)+" @"+view]; ok {
+			return c
+		}
+	}
+	return w.contractFor(fn)
+}
+
 func (w *World) contractFor(fn *ssa.Function) *Contract {
 	if c, ok := w.contracts[w.contractName(fn)]; ok {
 		return c
@@ -298,6 +313,9 @@ func (w *World) findFunc(c *Contract) *ssa.Function {
 	}
 	sp.Build()
 	key := c.Key
+	if i := strings.Index(key, " @"); i >= 0 {
+		key = key[:i] // a view of the function's contract
+	}
 	if strings.HasPrefix(key, "(") {
 		// (*T).M or (T).M
 		i := strings.Index(key, ").")
